@@ -500,6 +500,103 @@ def header_stream(report, jv, dr, tier):
     return {"header_lines": len(lines), "header_compiling": len(ok), "header_mismatches": mism}
 
 
+
+def to_item_tks(text, toks):
+    """tokens of an item: white space and Eof dropped, Text tokens carry their lexeme"""
+    b = text.encode("utf-8")
+    out = []
+    for t, m in zip([t for t in toks if t["kind"] not in ("Whitespace", "Eof")], to_tks(text, toks, keep_eol=True)):
+        if t["kind"] == "Text":
+            out.append({"k": "Text", "s": b[t["offset"]:t["offset"] + t["length"]].decode("utf-8")})
+        else:
+            out.append(m)
+    return out
+
+
+def gen_item(rng, idx):
+    """returns (kind, name, text of the item)"""
+    r = rng.random()
+    if r < 0.2:
+        name = "av%d" % idx
+        return "assignment", name, "%s%s := %s\n" % (rng.choice(["", "", "export "]), name, gen_model_expr(rng, rng.randint(0, 3)))
+    if r < 0.3:
+        name = "al%d" % idx
+        return "alias", name, "alias %s := t%d\n" % (name, rng.randint(0, 3))
+    head = gen_header(rng, idx)
+    ind = rng.choice(["  ", "\t", "    "])
+    lines = []
+    for k in range(rng.choice([0, 1, 1, 2, 3, 4])):
+        if k > 0 and rng.random() < 0.12:
+            lines.append("")
+            continue
+        parts = []
+        for _ in range(rng.randint(1, 4)):
+            r2 = rng.random()
+            if r2 < 0.45:
+                parts.append(rng.choice(["echo", "a b", "x=1;", "#c", "'q'", "}}", "$x", "\u4e2d", "{{{{ raw }}"]))
+            elif r2 < 0.8:
+                e = gen_model_expr(rng, rng.randint(0, 2))
+                parts.append("{{%s%s%s}}" % (rng.choice(["", " "]), e, " " if e.endswith("}") else rng.choice(["", " "])))
+            else:
+                parts.append(" ")
+        line = "".join(parts)
+        if line.strip() == "" or line[0] in " \t" or line.startswith("#!"):
+            line = "w" + line
+        lines.append(line)
+    while lines and lines[-1] == "":
+        lines.pop()
+    return "recipe", "r%d" % idx, head + "\n" + "".join((ind + l if l else "") + "\n" for l in lines)
+
+
+def item_stream(report, jv, dr, tier):
+    rng = random.Random(report.seed ^ 0x17e5)
+    n = 2500 if tier == "quick" else 40000
+    decls = ("v := 'q'\nv0 := 'a'\nv1 := 'b'\nv2 := 'c'\nelse := 'e'\nx := 'x'\nassert_ := 'z'\niff := 'i'\nset unstable\n"
+             "t0:\nt1 a:\nt2 a b:\nt3 a b c:\n")
+    items = [gen_item(rng, i) for i in range(n)]
+    comp = jv.pbatch([{"op": "compile", "src": decls + text} for _, _, text in items], chunk=500)
+    lexed = jv.pbatch([{"op": "lex", "src": text} for _, _, text in items])
+    ok = [(k, nm, t, c, lx) for (k, nm, t), c, lx in zip(items, comp, lexed) if "dump" in c and "tokens" in lx]
+    model = dr.pbatch([{"op": "item", "tokens": to_item_tks(t, lx["tokens"])} for k, nm, t, c, lx in ok])
+    # the printed form of the item as the implementation prints it
+    printed = []
+    for k, nm, t, c, lx in ok:
+        f = c["formatted"]
+        key = {"assignment": nm + " :=", "alias": "alias " + nm + " :=", "recipe": nm}[k]
+        cands = [i for i in [f.find("\n" + key), f.find("\nexport " + key), f.find("\n@" + key)] if i >= 0]
+        start = min(cands) + 1
+        printed.append(f[start:])     # the item is the last one of the file
+    relex = jv.pbatch([{"op": "lex", "src": p} for p in printed])
+    mism = 0
+    kinds = {}
+    for (k, nm, t, c, lx), m, ptext, rl in zip(ok, model, printed, relex):
+        kinds[k] = kinds.get(k, 0) + 1
+        replay = {"op": "item-model", "text": t}
+        d = c["dump"]
+        if k == "assignment":
+            want = {"kind": k, "name": nm, "export": d["assignments"][nm]["export"], "value": d["assignments"][nm]["value"]}
+        elif k == "alias":
+            want = {"kind": k, "name": nm, "target": [d["aliases"][nm]["target"]]}
+        else:
+            rec = d["recipes"][nm]
+            want = {"kind": k, "name": nm, "quiet": rec["quiet"], "parameters": rec["parameters"], "priors": rec["priors"],
+                    "dependencies": [{"recipe": x["recipe"], "arguments": x["arguments"]} for x in rec["dependencies"]], "body": rec["body"]}
+        got = {key: m.get(key) for key in want}
+        if got != want or m.get("rest") != 0:
+            mism += 1
+            report.failure("c10-model-item-parser:%s" % k, "Lean item parser and parser.rs disagree", dict(replay, correspondence="item parser (vlib/c10.py)", model=got, impl=want), no_input=True)
+            continue
+        if "tokens" not in rl or m.get("printed") != to_item_tks(ptext, rl["tokens"]):
+            mism += 1
+            report.failure("c10-model-item-printer:%s" % k, "Lean item printer and the formatter disagree on the printed tokens",
+                           dict(replay, correspondence="item printer (vlib/c10.py)", model=m.get("printed"), impl=ptext), no_input=True)
+            continue
+        if not m.get("reparse_same"):
+            mism += 1
+            report.failure("c10-model-item-roundtrip:%s" % k, "the model's own item round trip failed", replay, no_input=True)
+    return {"items": len(items), "items_compiling": len(ok), "item_kinds": kinds, "item_mismatches": mism}
+
+
 def dump_of(r):
     return r.get("dump")
 
@@ -689,6 +786,7 @@ def run(report):
     stats["file_cases"] = kinds
     stats.update(model_stream(report, jv, C.Driver(), tier))
     stats.update(header_stream(report, jv, C.Driver(), tier))
+    stats.update(item_stream(report, jv, C.Driver(), tier))
     report.coverage.update({"inputs": len(srcs) + len(fcases)})
     report.coverage.update(stats)
     report.assumptions += [
